@@ -89,7 +89,17 @@ func (m *Model) node(id int, r *ModelRun) (action string, errID string) {
 	s := &m.sc.Nodes[id]
 	if s.Kind == KFlow {
 		m.depth++
-		a, e := m.flow(id, s.Flow, r)
+		budget := 1
+		if s.Flow.Retries > 1 {
+			budget = s.Flow.Retries
+		}
+		var a, e string
+		for att := 0; att < budget; att++ {
+			a, e = m.flow(id, s.Flow, r)
+			if e == "" || r.Trunc {
+				break
+			}
+		}
 		m.depth--
 		return a, e
 	}
